@@ -16,14 +16,14 @@ import (
 
 // Case is one generated test case in a replayable form.
 type Case struct {
-	Kind   string   `json:"kind"`            // parse | ref | urlparse | hist | cparse | cref | unit | pair | conc | cost
-	Cfg    string   `json:"cfg,omitempty"`   // description of the configuration
-	Base   *string  `json:"base,omitempty"`
-	Input  string   `json:"input"`
-	Ops    []string `json:"ops,omitempty"`   // printable operations
-	Req    string   `json:"request,omitempty"` // the request as sent to the model driver
-	Family string   `json:"family,omitempty"`
-	Index  int      `json:"index"`
+	Kind   string            `json:"kind"`          // parse | ref | urlparse | hist | cparse | cref | unit | pair | conc | cost
+	Cfg    string            `json:"cfg,omitempty"` // description of the configuration
+	Base   *string           `json:"base,omitempty"`
+	Input  string            `json:"input"`
+	Ops    []string          `json:"ops,omitempty"`     // printable operations
+	Req    string            `json:"request,omitempty"` // the request as sent to the model driver
+	Family string            `json:"family,omitempty"`
+	Index  int               `json:"index"`
 	Extra  map[string]string `json:"extra,omitempty"`
 }
 
